@@ -205,4 +205,26 @@ CHECKS = {
             dict(test="TestC17CD", unit="cd", kind="rapid", checks=(1600, 40000), shards=(8, 16)),
         ],
     ),
+    "C13": dict(
+        level="fault_enumeration",
+        technique="fault enumeration over an instrumented afero.Fs under the real handler (open/close ledger, error at op k, short read at read k) + model-based checking of every reply; rapid-generated histories with one fault or ending",
+        level_text="every single-fault position of 9 fixed scenarios is enumerated, pairs and generated histories are sampled; replies are judged by the reference model in its post-fault mode",
+        rule="scenarios over one fixture tree: plain-file reads, a ***DVD*** image with lazily opened members, a ***PS3*** image (PARAM.SFO), an encrypted image with adjacent key, one with "
+             "REDKEY key, a 3k3y image, directory enumeration with all three commands (symlinks, dangling link, re-open, failed opens), uploads with MKDIR/DELETE/RMDIR, and a "
+             "mixed-state history. for each: the fault-free run counts the filesystem operations K (open, openfile, stat, fstat, read, readat, seek, readdir, readdirnames, write, "
+             "close, remove, mkdir) and reads R; then an injected error (EIO/EACCES/ENOENT/EMFILE by index) at EVERY k < K in turn, a short read at EVERY r < R, every ending "
+             "(half-close, close, RST, truncated request, unknown opcode, 150 ms read timeout) after EVERY prefix of the history, and seeded pairs (k1,k2). oracle: before a "
+             "fault fires the strict protocol model; after it fired each reply must be the correct one, the opcode's failure code, a listing that omits entries, or a correct "
+             "prefix followed by the end of the connection - never other bytes; after the connection ended the ledger must be balanced (every opened handle closed, incl. member "
+             "files of images, key files, PARAM.SFO, scanned directories), the goroutine count back at its baseline, and a fresh connection served. unit random: rapid histories "
+             "(C03 generator + image/encrypted opens) with one random fault or ending. non-trivial = an injected fault that fired while >= 1 handle was open, or an ending at a "
+             "point of a history; distinct by (scenario, mode, index, errno, ending)",
+        assumptions=[INPROC, "faults are injected at the afero.Fs boundary (errors and short reads), not inside the kernel",
+                     "DIR_SIZE after a fault may report any value up to the true total (the walk skips what it cannot read by design)",
+                     "a lookup made to fail with ENOENT legitimately selects another documented key source (C11 don't-care)"],
+        units=[
+            dict(test="TestC13Enum", unit="enum", kind="enum", shards=(16, 16)),
+            dict(test="TestC13Random", unit="random", kind="rapid", checks=(1600, 40000), shards=(8, 16)),
+        ],
+    ),
 }
